@@ -268,6 +268,10 @@ func genAll(w *bufio.Writer, seed uint64, tier string) {
 		}
 		g.emit("C15 cache 1 %d %s", n, strings.Join(cur, " "))
 	}
+	// ---- (4b) key names through the worker RPC with plain, aliased and doubly aliased keys
+	for _, k := range []string{"plain", "keyC", "keyB", "keyA", "nokey"} {
+		g.emit("C15 walias %s", k)
+	}
 	// ---- (5) overlapping lookups: a pinned request inside a slow backend fetch while the key rotates and unpinned requests arrive
 	for _, e := range []int{0, 1} {
 		for _, k := range []int{1, 2, 8} {
